@@ -404,7 +404,10 @@ func loadView(ctx context.Context, scope *ReferenceScope, tableExpr parser.Query
 		}
 
 		if view.FileInfo != nil {
-			view.FileInfo.ViewType = ViewTypeInlineTable
+			// The result of the subquery shares its FileInfo with the cached table it was read from.
+			fileInfo := *view.FileInfo
+			fileInfo.ViewType = ViewTypeInlineTable
+			view.FileInfo = &fileInfo
 		}
 	}
 
